@@ -24,6 +24,7 @@ Cs == 0..NC
 Vs == 0..2
 InitTrees == IF DEPTH = 1 THEN Trees1(NC, 0..VMAX) ELSE IF DEPTH = 2 THEN Trees2(NC, 0..VMAX) ELSE Trees3(NC, 0..VMAX)
 Others == Trees1(NC + 1, {0, 1})
+Others2 == Trees2(2, {0, 1})
 
 RECURSIVE Pts(_)
 Pts(k) == IF k = 0 THEN {<<>>} ELSE {<<c>> \o p : c \in Cs, p \in Pts(k - 1)}
@@ -38,12 +39,14 @@ Acts(t) ==
  \cup (IF "setitem" \in OPS THEN {[op |-> "setitem", path |-> q, pos |-> i, c |-> c, v |-> v] :
                                      q \in lp, i \in 0..(NC - 1), c \in -1..(NC + 1), v \in {-1, 0, 2}} ELSE {})
  \cup (IF "clear" \in OPS THEN {[op |-> "clear", path |-> q] : q \in fp} ELSE {})
- \cup (IF "fassign" \in OPS THEN {[op |-> "fassign", path |-> q, other |-> o] : q \in lp, o \in Others} ELSE {})
+ \cup (IF "fassign" \in OPS THEN {[op |-> "fassign", path |-> q, other |-> o, lv |-> 1] : q \in lp, o \in Others}
+                                  \cup {[op |-> "fassign", path |-> q, other |-> o, lv |-> 2] : q \in fp \ lp, o \in Others2} ELSE {})
  \cup (IF "itershaperef" \in OPS THEN {[op |-> "itershaperef", path |-> q, lo |-> lo, hi |-> hi, step |-> s] :
                                      q \in fp, lo \in 0..NC, hi \in 0..(NC + 1), s \in 1..2} ELSE {})
  \cup (IF "fimul" \in OPS THEN {[op |-> "fimul", path |-> q, v |-> v] : q \in lp, v \in Vs} ELSE {})
  \cup (IF "fiadd" \in OPS /\ DEPTH = 1 THEN {[op |-> "fiadd", path |-> <<>>, v |-> v] : v \in Vs} ELSE {})
  \cup (IF "updcoords" \in OPS THEN {[op |-> "updcoords", path |-> q, fn |-> f] : q \in fp, f \in {"shift", "reverse", "double"}} ELSE {})
+ \cup (IF "obs" \in OPS THEN {[op |-> "obs", kind |-> k] : k \in {"eq", "or", "xor", "and", "sub", "print", "count", "getabsent", "iter", "shape", "dump", "uncompress", "copy", "reroot"}} ELSE {})
  \cup (IF "updpayloads" \in OPS THEN {[op |-> "updpayloads", path |-> q, fn |-> f] : q \in lp, f \in {"inc", "zero", "dbl"}} ELSE {})
 
 Init == /\ tree0 \in {Fib(e) : e \in InitTrees} /\ tree = tree0 /\ prev = tree0 /\ hist = <<>> /\ exc = "ok" /\ done = FALSE
@@ -76,6 +79,7 @@ StepOK ==
         m1 == Content(tree, 0)
     IN /\ WF(tree) /\ DepthIs(tree, DEPTH)                                    \* C01: the model keeps trees well-formed
        /\ exc = "order" => tree = prev                                        \* C01: rejected => unchanged
+       /\ a.op = "obs"   => tree = prev
        /\ a.op = "ref"   => m1 = m0 /\ Stored(tree) = Stored(prev) \cup Prefixes(a.pt)          \* C03
        /\ a.op = "write" => m1 = Override(m0, a.pt, WriteVal(a.kind, MapGet(m0, a.pt), a.v))    \* C03: map semantics
                             /\ Stored(tree) = Stored(prev) \cup Prefixes(a.pt)
